@@ -4568,7 +4568,9 @@ class ParameterizedMetaclass(type):
         parameter,owning_class = mcs.get_param_descriptor(attribute_name)
 
         if parameter and not isinstance(value,Parameter):
-            if owning_class != mcs:
+            inherited = owning_class != mcs
+            if inherited:
+                inherited_default = parameter.default
                 parameter = copy.copy(parameter)
                 parameter.owner = mcs
                 type.__setattr__(mcs,attribute_name,parameter)
@@ -4577,7 +4579,16 @@ class ParameterizedMetaclass(type):
                 # cached params()
                 for subcls in descendents(mcs):
                     subcls._param__private.params = {}
-            mcs.__dict__[attribute_name].__set__(None,value)
+            try:
+                mcs.__dict__[attribute_name].__set__(None,value)
+            except Exception:
+                if inherited and parameter.default is inherited_default:
+                    # the value was rejected: the class keeps following
+                    # the class it inherits the Parameter from
+                    type.__delattr__(mcs,attribute_name)
+                    for subcls in descendents(mcs):
+                        subcls._param__private.params = {}
+                raise
 
         else:
             type.__setattr__(mcs,attribute_name,value)
